@@ -226,6 +226,11 @@ func init() {
 	registerRule(&RuleDef{ID: "G-ARGS", Min: 1, Doc: "transact handler requires at least one operation", Run: ruleGARGS})
 	registerRule(&RuleDef{ID: "P-NIL-TYPEOBJ", Min: 3, Doc: "ColumnSchema.TypeObj dereferenced only for map/set/enum columns or after a nil test", Run: rulePNILTYPEOBJ})
 	registerRule(&RuleDef{ID: "GEN-ENUM", Min: 2, Doc: "enum alias names only with enum types on", Run: ruleGENENUM})
+	registerRule(&RuleDef{ID: "L-ATOM", Min: 8, Doc: "no value read from a guarded field is used in a later critical section of the same lock (split critical section / check-then-act)", Run: ruleLATOM("client", "cache", "server", "database/inmemory")})
+	add("C05", "L-ATOM")
+	registerRule(&RuleDef{ID: "T-DANGLE", Min: 2, Doc: "the dangling strong reference test is independent of root-set membership", Run: ruleTDANGLE})
+	add("C04", "T-DANGLE")
+	add("C18", "L-ATOM")
 	add("C12", "K6")
 	add("C09", "K6")
 	add("C13", "G-CLONE")
